@@ -16,6 +16,7 @@ import itertools
 from .. import core, harness, probes, vclock, vloop
 
 PROP = 'C05'
+TECHNIQUE = ('runtime monitoring: per-block log of init routine calls / init-time events, outputs and verdict of wait_init() compared with a reference model of the documented procedure, for every creation order')
 LEVEL = 'exploration'
 RULE = ("case = (2..4 probe blocks, each with a random subset of init sources {saved state "
         "(stored/missing, expiration None/<=0/shorter/longer than the downtime, stop timestamp "
